@@ -456,7 +456,7 @@ func planC10(t *testing.T, tier string, seed uint64) ([]RunSpec, error) {
 	bigK := 4
 	if !quick(tier) {
 		maxK = 400
-		seedsPerK = 12
+		seedsPerK = 40
 		ns = []int{1, 2, 3, 5, 8}
 		bigK = 40
 	}
